@@ -28,6 +28,8 @@ type RunCfg struct {
 	Ledger     bool           `json:"ledger"`
 	PoolAny    bool           `json:"pool_any"`
 	TimerRace  bool           `json:"timer_race"`
+	Shards     int            `json:"shards"`
+	ShardDepth int            `json:"shard_depth"`
 	SymRand    bool           `json:"sym_rand"`
 	OpaqueMake bool           `json:"opaque_make"`
 	Reach      []string       `json:"reach"`       // markers that must be reached
